@@ -1,7 +1,23 @@
 ------------------------------- MODULE MC_Views -------------------------------
 EXTENDS Views, Json
 SetSeq(S) == LET RECURSIVE go(_) go(T) == IF T = {} THEN <<>> ELSE LET x == CHOOSE y \in T : TRUE IN <<x>> \o go(T \ {x}) IN go(S)
-Emit == pc = "done" =>
-  PrintT(<<"VEC", ToJson([cfg |-> cfg, val |-> SetSeq(val),
-     pred |-> [wireKeys |-> SetSeq(wireKeys), viewHeader |-> viewHeader, clientKeys |-> SetSeq(clientKeys), cerr |-> cerr, effView |-> EffView]])>>)
+\* the variant as a design: types, attributes and views in DECLARATION order (what the check turns into DSL calls)
+TypeDesc(k, t) ==
+  LET as == Attrs(k, t) dv == DeclViews(k, t) IN
+  [name |-> t,
+   attrs |-> [i \in DOMAIN as |-> [name |-> as[i].attr, typ |-> as[i].typ, own |-> as[i].own, coll |-> as[i].coll,
+                                   required |-> as[i].attr \in Required(k, t), validated |-> as[i].attr \in Validated(k, t)]],
+   views |-> [i \in DOMAIN dv |-> [name |-> dv[i].name,
+                                   attrs |-> [j \in DOMAIN dv[i].attrs |-> LET e == dv[i].attrs[j] IN
+                                                [name |-> e.attr, view |-> IF e.sub[1] = "-" \/ e.sub[2] = "=" THEN "" ELSE e.sub[2]]]]]]
+GraphDesc(k) ==
+  [g |-> k.g, order |-> k.order, req |-> k.req, coll |-> TopColl(k.g), views |-> SetSeq(ViewsOf(k)), fixed |-> SetSeq(FixedViews(k)),
+   types |-> [i \in DOMAIN TypesOf(k.g) |-> TypeDesc(k, TypesOf(k.g)[i])]]
+\* one description per variant (printed with its first case), one line per finished case
+FirstCase == cfg.fixed = "-" /\ cfg.chosen = "" /\ bad = {} /\ val = CHOOSE v \in ValueSpace(K) : TRUE
+Emit ==
+  /\ pc = "server" /\ FirstCase => PrintT(<<"VEC", ToJson([graph |-> GraphDesc(K)])>>)
+  /\ pc = "done" =>
+       PrintT(<<"VEC", ToJson([cfg |-> cfg, val |-> SetSeq(val), bad |-> SetSeq(bad),
+          pred |-> [sres |-> sres, wireKeys |-> SetSeq(wireKeys), viewHeader |-> viewHeader, clientKeys |-> SetSeq(clientKeys), cerr |-> cerr, effView |-> EffView]])>>)
 ===============================================================================
